@@ -1,14 +1,14 @@
 #!/bin/bash
-# store_round2.sh <prop> <k> "<needs>" "<caught by>"
-P=$1; K=$2
-D=/verif/seeded/$P-r2m$K; mkdir -p $D
-cp /tmp/mut2/$P/_out/patch$K.diff $D/patch.diff; cp /tmp/mut2/$P/_out/demo$K.rs $D/demo.rs; cp /tmp/mut2/$P/_out/notes$K.md $D/notes.md 2>/dev/null
-python3 - "$P" "$K" "$3" "$4" <<'PY'
+# store_round2.sh <prop> <k> "<needs>" "<caught by>"   (env: MUTROOT=/tmp/mut2 RTAG=r2m)
+P=$1; K=$2; ROOT=${MUTROOT:-/tmp/mut2}; TAG=${RTAG:-r2m}
+D=/verif/seeded/$P-$TAG$K; mkdir -p $D
+cp $ROOT/$P/_out/patch$K.diff $D/patch.diff; cp $ROOT/$P/_out/demo$K.rs $D/demo.rs; cp $ROOT/$P/_out/notes$K.md $D/notes.md 2>/dev/null
+python3 - "$P" "$K" "$3" "$4" "$ROOT" "$TAG" <<'PY'
 import json, sys
-p,k,needs,caught=sys.argv[1:5]
-json.dump({"property":p,"breaks":p,"round":2,"needs_to_manifest":needs,
- "confirmed":"tools/confirm_mutant.sh /tmp/mut2/%s %s: demo passes on the clean tree; with the change the crate builds with and without default features, the 33 unit tests + doc tests pass, the demo fails"%(p,k),
+p,k,needs,caught,root,tag=sys.argv[1:7]
+json.dump({"property":p,"breaks":p,"round":int(tag[1]),"needs_to_manifest":needs,
+ "confirmed":"tools/confirm_mutant.sh %s/%s %s: demo passes on the clean tree; with the change the crate builds with and without default features, the 33 unit tests + doc tests pass, the demo fails"%(root,p,k),
  "run":"cp demo.rs <worktree>/tests/demo.rs && cargo test --offline --test demo  (fails with patch.diff applied, passes without)",
- "checks_run":"tools/try_mutant.sh seeded/%s-r2m%s/patch.diff <props>"%(p,k),
- "caught_by":caught}, open("/verif/seeded/%s-r2m%s/meta.json"%(p,k),"w"), indent=1)
+ "checks_run":"tools/try_mutant.sh seeded/%s-%s%s/patch.diff <props>"%(p,tag,k),
+ "caught_by":caught}, open("/verif/seeded/%s-%s%s/meta.json"%(p,tag,k),"w"), indent=1)
 PY
